@@ -392,7 +392,10 @@ def run(ctx):
                     ctx.counterexample('C16/braces-round-value-change-behaviour', 'curly braces round single values change what the script does', {'text': text, 'relayout': t4, 'world': world})
     ctx.extra['layout_distribution'] = dist
     # fixed forms from the reference: no white space needed next to operators, braces, brackets
-    for a, b in [('hue {5%3}', 'hue { 5 % 3 }'), ('hue {5 %3}', 'hue {5 % 3}'), ('hue {2^3}', 'hue { 2 ^ 3 }'), ('hue {(1+2)*3}', 'hue { ( 1 + 2 ) * 3 }'),
+    for a, b in [('define g begin print 1 end time at 8:00[g]', 'define g begin print 1 end time at 8:00 [ g ]'),            # D65
+                 ('define f with t begin return t end assign x [f 12:30]', 'define f with t begin return t end assign x [ f 12:30 ]'),
+                 ('define f with t begin return t end assign x {[f *:30]}', 'define f with t begin return t end assign x { [ f *:30 ] }'),
+                 ('hue {5%3}', 'hue { 5 % 3 }'), ('hue {5 %3}', 'hue {5 % 3}'), ('hue {2^3}', 'hue { 2 ^ 3 }'), ('hue {(1+2)*3}', 'hue { ( 1 + 2 ) * 3 }'),
                  ('define f with a begin return {a*2} end hue [f 1]', 'define f with a begin return { a * 2 } end hue [ f 1 ]'),
                  ('if{1<2}begin hue 1 end', 'if { 1 < 2 } begin hue 1 end'), ('assign x 5 if{x>=5}hue 1 else hue 2', 'assign x 5 if { x >= 5 } hue 1 else hue 2'),
                  ('hue{1!=2}', 'hue { 1 != 2 }'), ('hue {-5}', 'hue { - 5 }'), ('H 5 S 6 B 7 K 8', 'hue 5 saturation 6 brightness 7 kelvin 8'),
@@ -422,7 +425,12 @@ def run(ctx):
                           ('repeat with i from 1 to n begin print i end', 'repeat with i from {1} to {n} begin print {i} end'),
                           ('define f with p q begin print p print q end f n 5', 'define f with p q begin print {p} print {q} end f {n} {5}'),
                           ('if n begin print 1 end else begin print 0 end', 'if {n} begin print {1} end else begin print {0} end'),
-                          ('repeat in a and b as l with v from 10 to 20 begin print l print v end', 'repeat in {a} and {b} as l with v from {10} to {20} begin print l print v end')]:
+                          ('repeat in a and b as l with v from 10 to 20 begin print l print v end', 'repeat in {a} and {b} as l with v from {10} to {20} begin print l print v end'),
+                          # a string is a single value too: a string macro, a string literal, a string variable (D64)
+                          ('define k "nobody" assign nm k println nm', 'define k "nobody" assign nm {k} println nm'),
+                          ('println "abc" print "x y"', 'println {"abc"} print {"x y"}'),
+                          ('define k "light_1" assign s k on s print k', 'define k "light_1" assign s {k} on s print {k}'),
+                          ('define f with p begin println p end f "t" f a', 'define f with p begin println {p} end f {"t"} f {a}')]:
         ctx.count()
         pa, ea = lang.compile_script(PRE + plain)
         pb, eb = lang.compile_script(PRE + braced)
